@@ -753,6 +753,7 @@ func c10AuthChain(c *Ctx) {
 }
 
 var c10Canaries = []Canary{
+	{Name: "r5-userinfo-on-redirect", ExpectKey: "C10.R1#url-userinfo-assigned", Edits: []Edit{{File: "lfshttp/client.go", Find: "\tsameHost := req.URL.Host == newReq.URL.Host\n", Repl: "\tif newReq.URL.User == nil {\n\t\tnewReq.URL.User = req.URL.User\n\t}\n\tsameHost := req.URL.Host == newReq.URL.Host\n"}}},
 	{Name: "drop-samehost", ExpectKey: "C10.R1", Edits: []Edit{{File: "lfshttp/client.go", Find: "			if !sameHost {\n				continue\n			}", Repl: "			if !sameHost && len(location) == 0 {\n				continue\n			}"}}},
 	{Name: "port-blind-host", ExpectKey: "C10.R1", Edits: []Edit{{File: "lfshttp/client.go", Find: "	sameHost := req.URL.Host == newReq.URL.Host", Repl: "	sameHost := req.URL.Hostname() == newReq.URL.Hostname()"}}},
 	{Name: "drop-scheme-test", ExpectKey: "C10.R2", Edits: []Edit{{File: "lfshttp/client.go", Find: "	if req.URL.Scheme == \"https\" && newReq.URL.Scheme == \"http\" {", Repl: "	if req.URL.Scheme == \"https\" && newReq.URL.Scheme == \"http\" && newReq.URL.Port() == \"80\" {"}}},
